@@ -890,6 +890,7 @@ class SpanCondition(SpanBiQuery):
     class _Matcher(SpanBiMatcher):
         def __init__(self, a, b):
             self.a = a
+            self.b = b
             im = binary.IntersectionMatcher(a, b)
             super(SpanCondition._Matcher, self).__init__(im)
 
